@@ -332,7 +332,15 @@ def run(mod, tier="quick", seed=0, replay=None):
     cases = []
     if replay:
         payload = json.load(open(replay))
-        cases.append(payload["case"] if "case" in payload else payload)
+        if "case" in payload:
+            cases.append(payload["case"])
+        elif payload.get("broken"):  # broken-correspondence replay: the first disagreeing case
+            firsts = [b["first"]["case"] for b in payload["broken"] if isinstance(b.get("first"), dict) and "case" in b["first"]]
+            if not firsts:
+                raise SystemExit(f"replay {replay}: no case recorded (kind {payload.get('kind')}); the replay names the broken theorem/correspondence only")
+            cases.append(firsts[0])
+        else:
+            cases.append(payload)
     else:
         cases += corpus_cases(pid)
         for f in findings:
